@@ -714,6 +714,9 @@ func (s *Sim) Stop() {
 	}
 	s.wg.Wait()
 	s.ZK.Shutdown()
+	// fake servers may still sit in the bounded sleep of a delayed reply (at most 7 s): let them run into the closed
+	// connection, so that what the tear-down lists afterwards are goroutines that would never end
+	time.Sleep(8 * time.Second)
 	curSim.CompareAndSwap(s, nil)
 }
 
